@@ -135,7 +135,10 @@ def Node.applyChange (n : Node) (db : Db) (c : Change) : Node Ã— Db Ã— Resp Ã— L
         let db1 := db.setValueVersion change.key old.value inConflict state old.vaddr old.kaddr old.opId
         let pend := db1.listConflictKeys change.key
         let (oldOrKey, changeVersion) : Bytes Ã— Int :=
-          if oldVersion = inConflict then (pend.getLast?.getD [], vadd version pend.length)
+          if oldVersion = inConflict then
+            match pend.getLast? with
+            | some last => (last, vadd version pend.length)
+            | none => (old.value, oldVersion)
           else (old.value, oldVersion)
         let msg := Gen.resolvePrefix ++ [32] ++ Bytes.ofNat change.opId ++ [32] ++ db.name ++ [32]
           ++ Bytes.ofInt changeVersion ++ [32] ++ key ++ [32] ++ oldOrKey ++ [32] ++ change.value
@@ -161,6 +164,12 @@ def Db.permits (db : Db) (user : Option Bytes) (kind : PermKind) (key : Bytes) :
     (Permission.parseList e.value).any fun p =>
       p.kinds.contains kind && p.keys.any fun pat => patternMatch pat key
   | none => u = b!"all"
+
+/-- `is_valid_token` / `is_valid_user_token` -/
+def Db.validLogin (db : Db) (token : Bytes) (userName : Option Bytes) : Bool :=
+  match userName with
+  | some u => (match db.getValue (b!"$$user_" ++ u) with | some e => decide (e.value = token) | none => false)
+  | none => (match db.getValue Gen.tokenKey with | some e => decide (e.value = token) | none => false)
 
 def noDbSelected (sid : Sid) : Out := (.error Gen.noDbSelectedMsg, [.push sid Gen.noDbSelectedMsg])
 
@@ -384,10 +393,7 @@ def Node.processObj (fuel : Nat) (n : Node) (sid : Sid) (req : Request) : Node Ã
     match n.db? name with
     | none => (n, .error b!"Not a valid database name", [])
     | some db =>
-      let valid : Bool := match userName with
-        | some u => (match db.getValue (b!"$$user_" ++ u) with | some e => decide (e.value = token) | none => false)
-        | none => (match db.getValue Gen.tokenKey with | some e => decide (e.value = token) | none => false)
-      if valid then
+      if db.validLogin token userName then
         let s' := match userName with
           | some u => { s with db := some name, user := some u }
           | none => { s with db := some name }
@@ -414,7 +420,7 @@ def Node.processObj (fuel : Nat) (n : Node) (sid : Sid) (req : Request) : Node Ã
         | (n, true, evs) => (n, .ok, evs ++ [.push sid b!"create-db success\n"])
         | (n, false, _) => (n, .error b!"database already exists", [])
     else (n, .error b!"Create database only allow from primary!", [])
-  | .electionActive _ => (n, .ok, [])
+  | .electionActive _ => if !s.auth then (n, notAuth) else (n, .ok, [])
   | .electionWin =>
     if !s.auth then (n, notAuth) else
     let (n, evs) := n.electionWin
@@ -504,13 +510,11 @@ def Node.processObj (fuel : Nat) (n : Node) (sid : Sid) (req : Request) : Node Ã
       (n.setDb db', .ok, evs)
   | .resolve op dbName key value version =>
     let c : Change := { key, value, version, opId := op, resolve := true }
-    let a := if s.auth then n.accessDb sid dbName none .read else n.selectedDb sid
-    match a with
-    | .refused (_, evs) => (n, .ok, evs)
-    | .granted db =>
+    let a := if s.auth then n.accessDb sid dbName none .read else n.safeAccess sid key .write
+    n.withAccess a fun db =>
       if n.isPrimary then
         match n.resolveConflict db c with
-        | (n, db', _, evs) => (n.setDb db', .ok, evs)
+        | (n, db', r, evs) => (n.setDb db', r, evs)
       else (n, .ok, n.sendToPrimary (resolveMsg op dbName key value version))
   | .setPermissions user perms =>
     n.withAccess (n.safeAccess sid Gen.permKeyPrefix .write) fun db =>
